@@ -160,7 +160,7 @@ func analyse(x *Exec) *RunResult {
 // distinct signatures: watches the user added through a symbolic link (which
 // Remove cannot find again); leftovers of an Add that failed half-way.
 func leakCause(x *Exec, left []string, vnodes []string) string {
-	viaLink, failed, other, empty, unread, rewatched, stale, closing := false, false, false, false, false, false, false, false
+	viaLink, failed, other, empty, unread, rewatched, stale, closing, removing := false, false, false, false, false, false, false, false, false
 	// user directories whose path was renamed away / removed and re-created during the run
 	rebound := map[string]bool{}
 	gone := map[string]bool{}
@@ -271,6 +271,8 @@ func leakCause(x *Exec, left []string, vnodes []string) string {
 			dup = true
 		case closeInv >= 0 && opened && st >= closeInv-40:
 			closing = true
+		case opened && removedWhileSetUp(x, rel, st):
+			removing = true
 		case userFile && removedEv[rel]:
 			rewatched = true
 		case derived:
@@ -290,6 +292,8 @@ func leakCause(x *Exec, left []string, vnodes []string) string {
 		return ":stale-directory-scan-after-path-rebound"
 	case closing && !viaLink && !failed:
 		return ":watch-set-up-while-closing"
+	case removing && !viaLink && !failed:
+		return ":watch-set-up-while-removing-its-directory"
 	case rewatched && !viaLink && !failed:
 		return ":user-file-rewatched-after-overwrite"
 	case unread && !viaLink && !failed:
@@ -307,6 +311,21 @@ func leakCause(x *Exec, left []string, vnodes []string) string {
 }
 
 func p0(left []string, rel string) string { return rel }
+
+// removedWhileSetUp: the entry's descriptor was opened while a Remove of its
+// directory was running (or just before it was invoked).
+func removedWhileSetUp(x *Exec, rel string, openedAt int) bool {
+	for _, c := range x.H {
+		if c.Kind != OpRemove || c.Class != "" {
+			continue
+		}
+		dir := strings.TrimPrefix(cleanPath(c.Path), x.root+"/")
+		if strings.HasPrefix(rel, dir+"/") && openedAt >= c.Inv-40 && (c.Ret < 0 || openedAt <= c.Ret+2) {
+			return true
+		}
+	}
+	return false
+}
 
 func keys(m map[string]bool) []string {
 	var o []string
